@@ -280,6 +280,12 @@ def _rich():
         F(S("%s-%s"), "format", (S("<x>"), I(1))), F(S("a <b>"), "truncate", (I(4),)), F(S("a <b>"), "indent"),
         F(S("a <b>"), "forceescape"), F(S("a,<b>"), "replace", (S(","), SAFE("<s>"))),
     ]
+    # attribute syntax on constant containers whose keys collide with attribute names
+    cd = D((S("items"), I(5)), (S("keys"), S("<k>")))
+    dv = D((S("values"), I(3)), (S("get"), I(7)))
+    prods += [G.Attr(cd, "items"), C(G.Attr(cd, "items")), G.Attr(cd, "keys"), C(G.Attr(cd, "keys")), C(G.Attr(dv, "values")),
+              C(G.Attr(dv, "get"), (S("get"),)), G.Item(cd, S("items")), F(cd, "attr", (S("items"),)),
+              C(G.Attr(L(I(1), S("<b>")), "index"), (S("<b>"),))]
     cons = [
         ("id", lambda e: e), (".grouper", lambda e: G.Attr(e, "grouper")), (".list", lambda e: G.Attr(e, "list")),
         ("[0]", lambda e: G.Item(e, I(0))), ("[1]", lambda e: G.Item(e, I(1))), (".0", lambda e: G.IItem(e, 0)),
@@ -287,6 +293,7 @@ def _rich():
         ("|list", lambda e: F(e, "list")), ("|length", lambda e: F(e, "length")), ("|string", lambda e: F(e, "string")),
         ("|join", lambda e: F(e, "join", (S("<,>"),))), ("is mapping", lambda e: G.Test(e, "mapping")),
         ("is string", lambda e: G.Test(e, "string")), ("is iterable", lambda e: G.Test(e, "iterable")),
+        ("is callable", lambda e: G.Test(e, "callable")),
         ("[:1]", lambda e: G.Slice(e, None, I(1), None)), ("|safe", lambda e: F(e, "safe")),
         ("~", lambda e: G.Bin("~", e, S("<t>"))), ("+", lambda e: G.Bin("+", e, e)),
     ]
@@ -301,6 +308,8 @@ def _opaque(ast):
     """value prints with its memory address (plain objects, generators, iterators): never stringify it inside the template."""
     if ast[0] == "call" and ast[1] == G.Name("joiner"):
         return True
+    if ast[0] == "attr" or (ast[0] == "filter" and ast[2] == "attr"):
+        return True  # may be a bound method
     return ast[0] == "filter" and ast[2] in ("items", "batch", "slice", "unique", "reverse", "select", "map", "selectattr")
 
 
